@@ -105,6 +105,9 @@ def _run_instance(job):
             state["witness"] = dict(values=eng.extract(m), tag=tag,
                                     observations=[(l, api.plain(api.model_value(m, v))) for l, v in eng.observations])
 
+    from . import summaries
+    summaries.STATE["enabled"] = bool(getattr(mod, "SUMMARIES", True))
+    used0, lq0 = summaries.STATE["used"], summaries.STATE["lemma_queries"]
     signal.signal(signal.SIGALRM, _alarm)
     signal.alarm(int(budget_s * 1.5) + 5)
     try:
@@ -125,7 +128,10 @@ def _run_instance(job):
     out = dict(name=inst["name"], status=res["status"], reason=res.get("reason"), paths=res["paths"],
                aborted=res["aborted"], queries=res["queries"], solver_s=res["solver_s"], decisions=res["decisions"],
                obligations=res["obligations"], branches=res["branches"], classes=res["classes"], wall_s=0.0,
-               functions=sorted(funcs), replays=0, witness=None, violation=None, params=params)
+               functions=sorted(funcs), replays=0, witness=None, violation=None, params=params,
+               summaries_used=summaries.STATE["used"] - used0, lemma_queries=summaries.STATE["lemma_queries"] - lq0,
+               lemmas=sorted("%d%s" % (w, "s" if s else "u") for (w, s), ok in summaries.STATE["proven"].items() if ok),
+               lemmas_failed=sorted("%d%s" % (w, "s" if s else "u") for (w, s) in summaries.STATE["failed"]))
     # vacuity: declared outcome classes must be reachable
     if res["status"] == "ok":
         missing = [c for c in inst.get("expect", []) if not res["classes"].get(c)]
@@ -326,6 +332,10 @@ def write_evidence(mod, prop, tier, seed, results, viol, knownhits, incon, error
         solver_time_s=round(sum(r["solver_s"] for r in results), 3),
         cpu_time_s=round(sum(r["wall_s"] for r in results), 3),
         functions_encoded=sorted(funcs),
+        summaries_used=sum(r.get("summaries_used", 0) for r in results),
+        lemmas_discharged=sorted(set(x for r in results for x in r.get("lemmas", []))),
+        lemmas_failed=sorted(set(x for r in results for x in r.get("lemmas_failed", []))),
+        lemma_queries=sum(r.get("lemma_queries", 0) for r in results),
         bounds=getattr(mod, "BOUNDS", {}).get(tier, getattr(mod, "BOUNDS", {})),
         outside_the_claim=getattr(mod, "OUTSIDE", []),
         inconclusive=[dict(instance=r["name"], reason=r["reason"]) for r in incon],
